@@ -22,10 +22,18 @@ def declarations(rng, with_shared):
         elif c < .55 and with_shared:
             L = E.EDataType(f'M{k}', list)
             decls.append(('list-explicit', E.EAttribute(f'a{k}', L, default_value=[])))      # explicit mutable default
+        elif c < .62:
+            # a default literal whose parsed value is mutable (user data type): every read must get its own value
+            T = E.EDataType(f'T{k}', list, from_string=lambda s_: [int(x) for x in s_.split(',') if x])
+            decls.append(('list', E.EAttribute(f'a{k}', T, defaultValueLiteral=rng.choice(['', '1', '1,2']))))
         elif c < .7:
-            decls.append(('int', E.EAttribute(f'a{k}', E.EInt, defaultValueLiteral=str(rng.choice([5, -3, 0])))))
+            decls.append(('int', E.EAttribute(f'a{k}', rng.choice([E.EInt, E.EIntegerObject, E.ELong]),
+                                              defaultValueLiteral=str(rng.choice([5, -3, 0])))))
         elif c < .8:
-            decls.append(('int', E.EAttribute(f'a{k}', E.EInt, default_value=rng.choice([7, 9]))))
+            # explicit defaults, falsy ones included, over types whose own default differs (None, or a user default)
+            U = E.EDataType(f'U{k}', int, rng.choice([None, 4, 100]))
+            decls.append(('int', E.EAttribute(f'a{k}', rng.choice([E.EInt, E.EIntegerObject, U]),
+                                              default_value=rng.choice([7, 9, 0, 0]))))
         elif c < .9:
             U = E.EDataType(f'U{k}', int, rng.choice([None, 4]))
             decls.append(('int', E.EAttribute(f'a{k}', U)))
@@ -51,7 +59,8 @@ class Impl:
                     self.shared.append(a)
                     self.src.append(f'shared:{len(self.shared) - 1}')
                 else:
-                    self.src.append('factory')
+                    init = sorted(a) if isinstance(a, list) else []
+                    self.src.append('factory' + (':' + ','.join(map(str, init)) if init else ''))
             elif a is None:
                 self.src.append('none')
             else:
@@ -143,6 +152,8 @@ class Impl:
 def expected_default(kind, f):
     """independent statement of the declared default: literal, else explicit, else type default; empty container for factories"""
     if f.defaultValueLiteral is not None:
+        if kind == 'list':
+            return [int(x) for x in f.defaultValueLiteral.split(',') if x]
         return int(f.defaultValueLiteral)
     if f.default_value is not None:
         return f.default_value
